@@ -1,14 +1,56 @@
 (** C05 — Signing is the specification's function of key, message and randomness.
-    Only property theorems here, closed by [exact] of lemmas proved in PTape.v / PSignStruct.v / PBridge.v / PFrame.v.
-    PROVED so far: randomness enters only as the specification's input — deterministic signing draws nothing; hedged
-    ML-DSA signing is a function of the 32 drawn bytes used as rnd in rho'' = H(K || rnd || mu); randomized Dilithium
-    signing uses its 64 drawn bytes directly as rho'; the result does not depend on the output buffer; the API wrappers
-    sign the framed representative M'; attempt k of the rejection loop uses counter k and the mask is ExpandMask(rho'',
-    L*k + i); an attempt is returned iff it passes the four tests in the specification's order, otherwise the loop
-    continues. NOT yet a Coq theorem: the identification of the NTT-domain intermediates (w, c s1, c s2, c t0) with the
-    ring expressions of Sign_internal, hence byte equality with the specification's signature; that is decided by executing
-    model, crate and an independent Sign_internal on the message/context/mode grid and crafted keys (see evidence). *)
-From DV Require Import Base MReduce MParams MPoly MPolyvec MPacking MSign MApi PSample PBridge PTape PSignStruct PFrame.
+    Only property theorems here, closed by [exact] of lemmas proved in PSignSpec.v (and PTape/PSignStruct/PBridge/PFrame).
+    [S_sign P sk M' rnd sig] (PSignSpec.v) transcribes Dilithium 3.1 Sign / FIPS 204 Sign_internal (Alg. 7): skDecode;
+    A^ = ExpandA(rho); mu = H(tr || M'); rho'' = H(K || rnd || mu) (ML-DSA; rnd = 32 zero bytes when deterministic) resp.
+    H(K || mu) or the 64 random bytes themselves (Dilithium); for kappa = 0, 1, 2, ...: y = ExpandMask(rho'', kappa);
+    w = NTT^-1(A^ o NTT(y)); w1 = HighBits(w); ctilde = H(mu || w1Encode(w1)); c = SampleInBall(ctilde); z = y + c s1;
+    r0 = LowBits(w - c s2); reject if ||z|| >= gamma1 - beta or ||r0|| >= gamma2 - beta; reject if ||c t0|| >= gamma2 or more than
+    omega hints in h = MakeHint(-c t0, w - c s2 + c t0); the FIRST attempt not rejected outputs sigEncode(ctilde, z mod+- q, h).
+    Products c s are characterised in the NTT domain (evaluation at the roots; injective mod q), samplers relational.
+    PROVED for the six sets, every key whose decoded s2 is within +-eta (every key from key generation, C04), every message,
+    every mode: whenever signing returns, it returns exactly the specification's signature for the bytes drawn (none /
+    32 as rnd / 64 as rho'), and the specification's signature is unique. The proof includes the equivalence of the code's
+    test on w0 - c s2 with the specification's test on LowBits(w - c s2) (needs ||c s2|| <= beta, proved from the
+    challenge weight), the centred-norm reading of the norm check on 32-bit-reduced values, and MakeHint. *)
+From DV Require Import Base MReduce MParams MPoly MPolyvec MPacking MSign MApi PSample PBridge PTape PSignStruct PFrame PSignTotal PKeygen PSignSpec.
+
+Theorem C05_signing_is_the_specification :
+  forall (P : params) (xi pk sk sig0 m : list Z) (rand : bool) (tape sig tape' : list Z),
+  std P -> S_keygen P xi pk sk -> zlen sk = pSK P -> Forall is_byte m -> zlen sig0 = pSIG P -> tape_ok P rand tape ->
+  signature P sig0 m sk rand tape = Ok (sig, tape') ->
+  S_sign P sk m (if rand then Some (firstn (Z.to_nat (rand_bytes P)) tape) else None) sig.
+Proof. exact sign_spec_keygen. Qed.
+Print Assumptions C05_signing_is_the_specification.
+
+Theorem C05_specification_defines_one_signature : forall (P : params) (sk m : list Z) (rnd : option (list Z)) (sig sig' : list Z),
+  S_sign P sk m rnd sig -> S_sign P sk m rnd sig' -> sig = sig'.
+Proof. exact S_sign_functional. Qed.
+Print Assumptions C05_specification_defines_one_signature.
+
+Theorem C05_deterministic : forall (P : params) (sk sig0 m tape sig tape' : list Z),
+  std P -> sk_ok P sk -> Forall is_byte m -> zlen sig0 = pSIG P ->
+  signature P sig0 m sk false tape = Ok (sig, tape') -> S_sign P sk m None sig /\ tape' = tape.
+Proof. exact sign_spec_deterministic. Qed.
+Print Assumptions C05_deterministic.
+
+Theorem C05_hedged_or_randomized : forall (P : params) (sk sig0 m tape sig tape' : list Z),
+  std P -> sk_ok P sk -> Forall is_byte m -> zlen sig0 = pSIG P ->
+  Forall is_byte (firstn (Z.to_nat (rand_bytes P)) tape) ->
+  signature P sig0 m sk true tape = Ok (sig, tape') ->
+  let drawn := firstn (Z.to_nat (rand_bytes P)) tape in
+  S_sign P sk m (Some drawn) sig /\ zlen drawn = rand_bytes P /\ tape' = skipn (Z.to_nat (rand_bytes P)) tape.
+Proof. exact sign_spec_randomized. Qed.
+Print Assumptions C05_hedged_or_randomized.
+
+Theorem C05_api :
+  (forall (P : params) (sk msg s : list Z), std P -> sk_ok P sk -> Forall is_byte msg ->
+     dil_sign P sk msg = Ok s -> S_sign P sk msg None s) /\
+  (forall (P : params) (sk msg : list Z) (ctx : option (list Z)) (hedged : bool) (tape s tape' : list Z),
+     std P -> sk_ok P sk -> Forall is_byte msg -> PTotal.ctx_is_bytes ctx -> tape_ok P hedged tape ->
+     ml_sign P sk msg ctx hedged tape = Ok (Some s, tape') ->
+     S_sign P sk (frame_pure ctx msg) (if hedged then Some (firstn (Z.to_nat (rand_bytes P)) tape) else None) s).
+Proof. split; [exact dil_sign_spec | exact ml_sign_spec]. Qed.
+Print Assumptions C05_api.
 
 Theorem C05_deterministic_is_function_of_key_and_message : forall (P : params) (sig msg sk tape : list Z),
   signature P sig msg sk false tape = (do s <- signature_with P sig msg sk None; Ok (s, tape)).
@@ -53,7 +95,7 @@ Proof. exact l_uniform_gamma1_ok'. Qed.
 Print Assumptions C05_mask_is_ExpandMask.
 
 (** loop structure: attempts 0, 1, 2, ... in order; the first accepted one is returned *)
-Theorem C05_first_accepted_attempt_is_returned_partial :
+Theorem C05_first_accepted_attempt_is_returned :
   forall (P : params) (mu rhoprime : list Z) (mat : list (list (list Z))) (s1 s2 t0 : list (list Z))
          (fuel : nat) (sig : list Z) (nonce : Z) (trace s trace' : list Z),
   sign_loop P fuel sig mu rhoprime mat s1 s2 t0 nonce trace = Ok (s, trace') ->
@@ -64,7 +106,7 @@ Theorem C05_first_accepted_attempt_is_returned_partial :
     (forall (k : nat) (c : Z), nth_error causes k = Some c ->
        exists sig_k sig_k', sign_attempt P sig_k mu rhoprime mat s1 s2 t0 (nonce + Z.of_nat k) = Ok (Retry c sig_k')).
 Proof. exact sign_loop_last. Qed.
-Print Assumptions C05_first_accepted_attempt_is_returned_partial.
+Print Assumptions C05_first_accepted_attempt_is_returned.
 
 (** rejection conditions and their order: z-norm, low bits, c*t0, hint count *)
 Theorem C05_rejection_order :
